@@ -138,6 +138,10 @@ def gen_plan(seed, tier, index=0, avoid=()):
         "eio_reads": [],
     }
     del cfg["_"]
+    cfg["platform"] = "darwin" if rng.random() < 0.08 else None     # Input.__enter__ has a darwin-only block
+    # a second Input on another tty holds an event, a scheduled event and ungot bytes of its own and is never
+    # read until the end: nothing of it may come out of the Input under test, and it keeps all of it
+    cfg["decoy"] = rng.random() < 0.2
     # a SIGWINCH handler that fires a threadsafe trigger (bpython's wiring); with the application on a worker
     # thread the handler - and so the callback - runs on the main thread
     cfg["winch_trigger"] = bool(faulty and nts > 0 and cfg["pipe_cap"] >= 65536
@@ -152,18 +156,20 @@ def gen_plan(seed, tier, index=0, avoid=()):
         r = rng.random()
         if r < 0.45:
             main.append({"op": "send", "timeout": rng.choice((0, 0, 0.01, 0.3, 2.0, None))})
+            if main[-1]["timeout"] is None and rng.random() < 0.3:
+                main[-1]["via_next"] = True          # the request is next(inp): iteration is send(None)
         elif r < 0.60 and not split:
             data = b"".join(_burst(rng, mix, _burst_size(rng, big)))
             main.append({"op": "arrive", "data": data.hex()})
         elif r < 0.66 and not split:
             main.append({"op": "unget", "data": b"".join(_burst(rng, mix, rng.randint(1, 4))).hex()})
         elif r < 0.74:
-            main.append({"op": "event"})
+            main.append({"op": "event", "trig": int(rng.random() < 0.3)})
         elif r < 0.84:
             if equal_ok and rng.random() < 0.4:
-                main.append({"op": "sched", "at": rng.choice(sched_slots)})       # absolute slots: equal times happen
+                main.append({"op": "sched", "at": rng.choice(sched_slots), "trig": int(rng.random() < 0.4)})   # absolute slots: equal times happen
             else:
-                main.append({"op": "sched", "at": round(rng.uniform(-0.5, 4.0), 6) + rng.random() * 1e-7})
+                main.append({"op": "sched", "at": round(rng.uniform(-0.5, 4.0), 6) + rng.random() * 1e-7, "trig": int(rng.random() < 0.3)})
         elif r < 0.90 and nts:
             main.append({"op": "ts_call", "trig": rng.randrange(nts)})
         elif r < 0.925:
@@ -176,6 +182,8 @@ def gen_plan(seed, tier, index=0, avoid=()):
             main.append({"op": "cursor_query"})
         else:
             main.append({"op": "send", "timeout": rng.choice((0.01, None))})
+            if main[-1]["timeout"] is None and rng.random() < 0.3:
+                main[-1]["via_next"] = True
     # timed environment: user typing and signals while the app runs / is blocked
     nenv = rng.choice((0, 1, 2, 4, 8)) if faulty else rng.choice((0, 1, 2))
     storm = faulty and rng.random() < 0.15
@@ -247,7 +255,7 @@ def gen_plan(seed, tier, index=0, avoid=()):
             if k < 0.55:
                 th.append({"op": "ts_call", "trig": rng.randrange(nts)})
             elif k < 0.7:
-                th.append({"op": "event"})
+                th.append({"op": "event", "trig": int(rng.random() < 0.3)})
             else:
                 th.append({"op": "sleep", "dt": rng.choice((0.0001, 0.01, 0.3, 1.0))})
         threads.append(th)
@@ -452,7 +460,8 @@ def run_plan(p, keep_log=False):
     cfg = p["cfg"]
     s = setup.make({"h": 2, "w": 10, "read_size": cfg["read_size"], "pipe_cap": cfg["pipe_cap"], "tick": cfg["tick"],
                     "time_cost": cfg["time_cost"], "overshoot": cfg["overshoot"], "yield_cap": 600000,
-                    "locale_name": cfg.get("locale_name"), "tty_fd0": cfg.get("tty_fd0", False)}, p["sched"], keep_log)
+                    "locale_name": cfg.get("locale_name"), "tty_fd0": cfg.get("tty_fd0", False),
+                    "platform": cfg.get("platform")}, p["sched"], keep_log)
     world = s.world
     res = {"violation": None, "error": None, "probes": world.probes, "faults": world.faults,
            "states": set(), "nsteps": 0}
@@ -499,8 +508,13 @@ def _execute(p, s, res):
     thr = cfg["paste_threshold"]
     import os as _os_
     pkg = _os_.path.dirname(ci.__file__) + _os_.sep
-    hot = ("events.py", "curtsieskeys.py", "formatstring.py", "formatstringarray.py", "escseqparse.py", "window.py")
-    tracer = world.make_tracer(lambda fn: fn.startswith(pkg) and not fn.endswith(hot))
+    hot = ("curtsieskeys.py", "formatstring.py", "formatstringarray.py", "escseqparse.py", "window.py")
+    hot_funcs = ("get_key", "_key_name", "decodable", "could_be_unfinished_char", "could_be_unfinished_utf8",
+                 "pp_event", "curtsies_name", "<genexpr>", "<listcomp>", "<lambda>")
+    # (in events.py only the per-byte decoding functions are left untraced, not the file: a queue class that
+    # lives next to the event classes is pre-empted line by line like the rest of the package)
+    tracer = world.make_tracer(lambda fn: fn.startswith(pkg) and not fn.endswith(hot),
+                               skip_func=lambda fn, name: fn.endswith("events.py") and name in hot_funcs)
     world.thread_tracer = tracer
     # constructing the event object is a pre-emption point in the middle of the callback's line (bytecode-level
     # tracing would give more of those, but CPython's 'opcode' events differ between the first and later
@@ -513,7 +527,16 @@ def _execute(p, s, res):
             events.ScheduledEvent.__init__(self, when)
             self.n = SEv.next_serial[0]
 
+        def __bool__(self):
+            return not (Ev.falsy_every and self.n is not None and self.n % Ev.falsy_every == 0)
+
     SEv.next_serial = [None]
+
+    class SEv2(SEv):          # a second scheduled_event_trigger with an event class of its own
+        pass
+
+    class Ev2(Ev):            # ... and a second event_trigger
+        pass
 
     def on_tty_read(fd, data, in_request=True, by_input=True):
         import bisect
@@ -616,10 +639,19 @@ def _execute(p, s, res):
         kn = {"bytes": events.Keynames.BYTES, "curtsies": events.Keynames.CURTSIES, "curses": events.Keynames.CURSES}[mode]
     inp = Input(in_stream=s.inp, keynames=kn, paste_threshold=thr, sigint_event=cfg["sigint_event"],
                 disable_terminal_start_stop=cfg["dts"])
+    decoy = None
+    decoy_items = {}
+    if cfg.get("decoy"):
+        from sim.kernel import SimIn
+        fd2, _tty2 = kernel.open_tty()
+        decoy = Input(in_stream=SimIn(world, kernel, fd2, "utf-8"), keynames=kn, paste_threshold=None,
+                      sigint_event=False)
+        world.probe("second_input_object")
     ts_cbs = []
     ts_rfds = []          # read ends of the trigger pipes, in creation order (observed at the pipe() seam)
-    ev_cb = [None]
-    sched_cb = [None]
+    ev_cb = [None, None]
+    sched_cb = [None, None]
+    sched_trig = {}           # serial of a scheduled event -> which scheduled_event_trigger it came from
     in_request = [False]
     in_window_query = [False]
     sentinel_count = [0]
@@ -686,20 +718,23 @@ def _execute(p, s, res):
     world.on_clock_jump = on_clock_jump
     req_sched_at_start = [set()]
 
+    ts_completed_time = {}    # serial -> virtual time at which its threadsafe callback had returned
+
     def call_ts(k, who):
         n = M.new_serial("ts", (k, who))
         M.ts_started[n] = k
         world.log.add("ts_call", who, k, n)
         ts_cbs[k](src=k, n=n)
+        ts_completed_time[n] = world.now
         if n not in M.returned_serials:      # (a request may already have returned it)
             M.ts_completed.append(n)
             M.ts_completed_seq[n] = world.log.n
         world.log.add("ts_done", who, k, n)
 
-    def call_event(who):
-        n = M.new_serial("event", who)
-        world.log.add("event_call", who, n)
-        ev_cb[0](src=who, n=n)
+    def call_event(who, trig=0):
+        n = M.new_serial("event", (who, trig))
+        world.log.add("event_call", who, n, trig)
+        ev_cb[trig](src=who, n=n)
         if n not in M.returned_serials:
             M.q_events.append(n)
 
@@ -709,7 +744,7 @@ def _execute(p, s, res):
                 if st["op"] == "sleep":
                     world.block_until(lambda: False, world.now + st["dt"], "sleep")
                 elif st["op"] == "event":
-                    call_event("t%d" % ti)
+                    call_event("t%d" % ti, st.get("trig", 0))
                 else:
                     k = st["trig"]
                     if len(ts_cbs) <= k:
@@ -740,7 +775,7 @@ def _execute(p, s, res):
                   "entered_total": len(M.entered), "in_paste": in_paste})
         return False
 
-    def do_send(si, timeout, draining=False):
+    def do_send(si, timeout, draining=False, via_next=False):
         start = world.now
         deliv = deliverable_now()
         sched_pending = bool(M.sched)
@@ -771,7 +806,11 @@ def _execute(p, s, res):
         bursts0 = list(M.bursts)
         in_request[0] = True
         try:
-            r = inp.send(timeout)
+            if via_next:
+                world.probe("request_made_by_iteration")
+                r = next(inp)
+            else:
+                r = inp.send(timeout)
         except KeyboardInterrupt:
             world.probe("keyboardinterrupt_torn_request")
             world.fault("keyboardinterrupt")
@@ -817,6 +856,23 @@ def _execute(p, s, res):
             world.fault("stale_wakeup", spurious)
             if spurious >= 2:
                 world.probe("two_spurious_in_one_request")
+        # ---- slept through something ----------------------------------------------------------
+        # (virtual time passes only while every thread is blocked: a request that comes back long after a
+        # threadsafe callback had returned, or long after a scheduled event's time, sat in its wait all the while)
+        if world.main_waited and not res["violation"]:
+            slept = [n for n in list(M.ts_completed) if start < ts_completed_time.get(n, now) < now - 0.05]
+            if slept:
+                _violate(res, "blocked_past_completed_threadsafe_event", si,
+                         {"serials": slept[:5], "callback_returned_at": round(ts_completed_time[slept[0]] - world.t0, 6),
+                          "request_returned_at": round(now - world.t0, 6), "timeout": timeout, "returned": kind})
+                return
+            if isinstance(r, SEv):
+                w_ = [x[0] for x in M.sched if x[1] == r.n]
+                if w_ and now - max(w_[0], start) > 0.05:
+                    _violate(res, "scheduled_event_returned_late", si,
+                             {"scheduled_for": round(w_[0] - world.t0, 6), "request_began": round(start - world.t0, 6),
+                              "returned_at": round(now - world.t0, 6), "timeout": timeout})
+                    return
         # ---- bytes ---------------------------------------------------------------------
         if isinstance(r, events.PasteEvent):
             world.probe("paste_event")
@@ -842,6 +898,9 @@ def _execute(p, s, res):
                              {"covered_to": M.pos, "burst": [a, b_], "last_whole_key_ends_at": need})
             M.bursts[:] = [(a, b_) for a, b_ in M.bursts if a >= M.pos]
         elif isinstance(r, (str, bytes)):
+            if isinstance(r, bytes) != (mode == "bytes"):
+                _violate(res, "keypress_of_wrong_type", si, {"keynames": mode, "returned": repr(r)})
+                return
             if not judge_key(r, si, False):
                 return
             # a burst the Input read in one go comes back as ONE paste event -- from the request that read it or,
@@ -868,7 +927,9 @@ def _execute(p, s, res):
                 _violate(res, "event_returned_twice", si, {"serial": n})
             M.returned_serials.add(n)
             ent = [x for x in M.sched if x[1] == n]
-            if not ent:
+            if not ent and M.event_serials.get(n, ("",))[0] == "decoy":
+                _violate(res, "event_of_another_input_object_returned", si, {"serial": n, "kind": "sched"})
+            elif not ent:
                 _violate(res, "unknown_scheduled_event", si, {"serial": n})
             else:
                 w = ent[0][0]
@@ -878,9 +939,9 @@ def _execute(p, s, res):
                 earlier = [x for x in M.sched if x[0] < w]
                 if earlier:
                     _violate(res, "scheduled_events_out_of_time_order", si, {"returned_when": w, "still_pending": earlier})
-                # equal times: time order says nothing, "events from one trigger in trigger order" does (all
-                # scheduled events of a run come from the one scheduled_event_trigger callback)
-                same = [x for x in M.sched if x[0] == w and x[1] < n]
+                # equal times: time order says nothing, "events from one trigger in trigger order" does (for
+                # scheduled events that came from the same scheduled_event_trigger callback)
+                same = [x for x in M.sched if x[0] == w and x[1] < n and sched_trig.get(x[1]) == sched_trig.get(n)]
                 if same and not earlier:
                     _violate(res, "events_of_one_trigger_out_of_order", si,
                              {"serial": n, "when": w - world.t0, "triggered_earlier_for_the_same_time_and_still_pending": [x[1] for x in same],
@@ -892,6 +953,8 @@ def _execute(p, s, res):
             kindsrc = M.event_serials.get(n)
             if kindsrc is None:
                 _violate(res, "unknown_event", si, {"serial": n})
+            elif kindsrc[0] == "decoy":
+                _violate(res, "event_of_another_input_object_returned", si, {"serial": n, "kind": kindsrc[1]})
             elif n in M.returned_serials:
                 _violate(res, "event_returned_twice", si, {"serial": n, "kind": kindsrc[0]})
             else:
@@ -1021,8 +1084,18 @@ def _execute(p, s, res):
             sys.settrace(tracer)
         inp.__enter__()
         try:
+            if decoy is not None:
+                n1, n2 = M.new_serial("decoy", "event"), M.new_serial("decoy", "sched")
+                decoy.event_trigger(Ev)(src="decoy", n=n1)
+                SEv.next_serial[0] = n2
+                decoy.scheduled_event_trigger(SEv)(world.t0 - 5.0)
+                decoy.unget_bytes(b"dq")
+                decoy_items.update(event=n1, sched=n2, data=b"dq")
+                world.log.add("decoy_filled", n1, n2)
             ev_cb[0] = inp.event_trigger(Ev)
+            ev_cb[1] = inp.event_trigger(Ev2)
             sched_cb[0] = inp.scheduled_event_trigger(SEv)
+            sched_cb[1] = inp.scheduled_event_trigger(SEv2)
             def make_ts():
                 fds0 = set(kernel.open_fds())
                 cb = inp.threadsafe_event_trigger(Ev)
@@ -1040,7 +1113,7 @@ def _execute(p, s, res):
                     op = st["op"]
                     if op == "send":
                         req_spur[0] = 0
-                        do_send(si, st["timeout"])
+                        do_send(si, st["timeout"], False, bool(st.get("via_next")) and st["timeout"] is None)
                     elif op == "arrive":
                         data = bytes.fromhex(st["data"])
                         if len(data) > 1000:
@@ -1069,14 +1142,15 @@ def _execute(p, s, res):
                             M.entered_bounds.add(off)
                         M.entered.extend(data)
                     elif op == "event":
-                        call_event("main")
+                        call_event("main", st.get("trig", 0))
                     elif op == "sched":
                         when = world.t0 + st["at"]
                         n = M.new_serial("sched", "main")
                         if any(w == when for w, _n in M.sched):
                             world.probe("equal_when")
                         SEv.next_serial[0] = n
-                        sched_cb[0](when)
+                        sched_trig[n] = st.get("trig", 0)
+                        sched_cb[st.get("trig", 0)](when)
                         M.sched.append((when, n))
                         world.log.add("sched", when, n)
                     elif op == "mk_ts":
@@ -1180,7 +1254,7 @@ def _execute(p, s, res):
                     if t.exc is not None:
                         _violate(res, "trigger_thread_raised", -1, {"thread": t.name, "exception": repr(t.exc)})
                 missing = [n for n, (k, src) in M.event_serials.items()
-                           if n not in M.returned_serials and (k != "ts" or n in M.ts_started)]
+                           if n not in M.returned_serials and (k != "ts" or n in M.ts_started) and k != "decoy"]
                 if missing:
                     _violate(res, "event_never_returned", -1, {"serials": missing[:10],
                                                                "kinds": [M.event_serials[n][0] for n in missing[:10]]})
@@ -1188,6 +1262,22 @@ def _execute(p, s, res):
                     _violate(res, "bytes_never_returned", -1, {"returned_to": M.pos, "entered": len(M.entered)})
                 if len(s.tty.inq):
                     _violate(res, "bytes_left_unread", -1, {"unread": len(s.tty.inq)})
+                if decoy is not None and not res["violation"]:
+                    got_ev, got_keys = [], []
+                    for _ in range(8):
+                        x = decoy.send(0)
+                        if x is None:
+                            break
+                        if isinstance(x, (str, bytes)):
+                            got_keys.append(x)
+                        else:
+                            got_ev.append(getattr(x, "n", None))
+                    data = b"".join(k if isinstance(k, bytes) else (k.encode("utf-8") if len(k) == 1 else b"?") for k in got_keys)
+                    if sorted(got_ev, key=str) != sorted([decoy_items["event"], decoy_items["sched"]], key=str) \
+                            or data != decoy_items["data"]:
+                        _violate(res, "other_input_object_lost_its_items", -1,
+                                 {"put_in": {"event": decoy_items["event"], "scheduled": decoy_items["sched"], "bytes": "dq"},
+                                  "came_out": {"events": got_ev, "keys": [repr(k) for k in got_keys]}})
                 if M.tty_read_total != M.arrived_total and not res["violation"]:
                     # (e.g. type-ahead discarded by a TCSAFLUSH when the context was entered)
                     _violate(res, "bytes_arrived_but_never_read", -1,
